@@ -1,26 +1,48 @@
 ----------------------------- MODULE CoMutex_MC -----------------------------
 (* Bounded model of CoMutex.tla; memory orders from CoMutex_gen (extracted from the running code). *)
-EXTENDS CoMutex, CoMutex_gen
+EXTENDS CoMutex, CoMutex_gen, Json
+
+VARIABLE hist
+CONSTANT KeepHist   \* TRUE only for behaviour extraction (the _paths configuration)
 
 O(site) == IF site \in DOMAIN OrdTable THEN OrdTable[site] ELSE [o |-> "sc", f |-> "sc", fences |-> <<>>]
 
-MCInit == Init
+MCInit == Init /\ hist = <<>>
 
 MCStep ==
   /\ Step
   /\ mm' = MM!MStep(mm, ev'.p, ev'.a, ev'.loc, ev'.ok, O(ev'.site).o, O(ev'.site).f, O(ev'.site).fences, ev'.post)
 
-MCNext == MCStep \/ (Quiescent /\ UNCHANGED vars)
-MCSpec == MCInit /\ [][MCNext]_vars
+HistStep == hist' = (IF KeepHist THEN Append(hist, ev') ELSE hist)
+MCNext == (MCStep /\ HistStep) \/ (Quiescent /\ UNCHANGED <<vars, hist>>)
+MCSpec == MCInit /\ [][MCNext]_<<vars, hist>>
 \* weak fairness of every worker: every request is eventually granted and every coroutine finishes
-FairSpec == MCSpec /\ \A w \in Wrk : WF_vars(MCStep /\ ev'.p = w)
+FairSpec == MCSpec /\ \A w \in Wrk : WF_<<vars, hist>>(MCStep /\ HistStep /\ ev'.p = w)
 EventuallyQuiescent == <>Quiescent
 \* the protocol alone (no happens-before bookkeeping): cheap enough for the quick tier
-PStep == Step /\ UNCHANGED mm
-PSpec == MCInit /\ [][PStep \/ (Quiescent /\ UNCHANGED vars)]_vars
-FairP == PSpec /\ \A w \in Wrk : WF_vars(PStep /\ ev'.p = w)
+PStep == Step /\ UNCHANGED <<mm, hist>>
+PSpec == MCInit /\ [][PStep \/ (Quiescent /\ UNCHANGED <<vars, hist>>)]_<<vars, hist>>
+FairP == PSpec /\ \A w \in Wrk : WF_<<vars, hist>>(PStep /\ ev'.p = w)
 
 NoRace == MM!NoRace(mm)
 NoStuck == (~ENABLED MCStep) => Quiescent
 View == <<st, mm>>
+
+\* behaviour extraction (the _paths configuration, no VIEW): the root's submissions first, then the schedule
+RECURSIVE Str(_)
+Str(sq) == IF sq = <<>> THEN "" ELSE Head(sq) \o Str(Tail(sq))
+PStr(c) == IF c <= NC(st) THEN Str(Prog(st, c)) ELSE ""
+OptStr == (IF st.scen.batching THEN "1" ELSE "0") \o (IF st.scen.fifo THEN "1" ELSE "0")
+RootHead == [i \in 1..NC(st) |-> [p |-> "root", obs |-> <<Ob("pool_submit", "")>>]]
+LastWriterStr == ToString(st.data)
+RECURSIVE FinalRec(_)
+FinalRec(c) == IF c > NC(st) THEN [data |-> LastWriterStr, free |-> "1"] ELSE (("co" \o ToString(c)) :> "ready") @@ FinalRec(c + 1)
+PrintPaths ==
+  Quiescent =>
+     PrintT(<<"BEHAVIOUR", ToJson([scen |-> [opts |-> OptStr, workers |-> ToString(st.scen.workers), p1 |-> PStr(1), p2 |-> PStr(2), p3 |-> PStr(3)],
+                                   final |-> FinalRec(1),
+                                   evs |-> RootHead \o [i \in 1..Len(hist) |->
+                                             [p |-> hist[i].p, a |-> hist[i].a, o |-> hist[i].o, old |-> hist[i].old,
+                                              new |-> hist[i].new, ok |-> hist[i].ok, spur |-> hist[i].spur, obs |-> hist[i].obs,
+                                              done |-> hist[i].done]]])>>)
 =============================================================================
